@@ -662,12 +662,26 @@ func init() {
 		return &TupleV{Vs: []Value{data, err}}
 	}
 	stdModels["encoding/json.NewEncoder"] = func(ec *evalCtx, call *ast.CallExpr, recv Value, args []Value) Value {
-		id := ec.e().allocObj(ec.st, &StructV{Names: []string{"$writer"}, F: map[string]Value{"$writer": args[0]}})
+		id := ec.e().allocObj(ec.st, &StructV{Names: []string{"$writer", "$escapeHTML"}, F: map[string]Value{"$writer": args[0], "$escapeHTML": True}})
 		return &PtrV{Nil: False, Obj: id}
+	}
+	stdModels["(*encoding/json.Encoder).SetEscapeHTML"] = func(ec *evalCtx, call *ast.CallExpr, recv Value, args []Value) Value {
+		sv := ec.st.heap[recv.(*PtrV).Obj].(*StructV)
+		nv := &StructV{Names: sv.Names, F: map[string]Value{}}
+		for k, v := range sv.F {
+			nv.F[k] = v
+		}
+		nv.F["$escapeHTML"] = scalar(args[0])
+		ec.st.heap[recv.(*PtrV).Obj] = nv
+		return nil
 	}
 	stdModels["(*encoding/json.Encoder).Encode"] = func(ec *evalCtx, call *ast.CallExpr, recv Value, args []Value) Value {
 		sv := ec.st.heap[recv.(*PtrV).Obj].(*StructV)
-		data, merr := jsonMarshalModel(ec, args[0])
+		esc, _ := sv.F["$escapeHTML"].(*Term)
+		if esc == nil {
+			esc = True
+		}
+		data, merr := jsonMarshalModelEsc(ec, args[0], esc)
 		// on a marshalling error nothing is written
 		c := Eq(merr, Int(0))
 		_, werr := ec.ghostWrite(sv.F["$writer"], Ite(c, Concat(data, Str("\n")), Str("")))
@@ -979,6 +993,11 @@ func unpackVariadicRaw(ec *evalCtx, v Value) []Value {
 
 // jsonMarshalModel: json.Marshal(v) = (data, err) with err == nil ==> data in JSON_HTMLSAFE.
 func jsonMarshalModel(ec *evalCtx, v Value) (*Term, *Term) {
+	return jsonMarshalModelEsc(ec, v, True)
+}
+
+// escapeHTML: the Encoder's SetEscapeHTML flag (true for json.Marshal); with it off nothing is known about '<', '>', '&'.
+func jsonMarshalModelEsc(ec *evalCtx, v Value, escapeHTML *Term) (*Term, *Term) {
 	var key *Term
 	switch x := v.(type) {
 	case *IfaceV:
@@ -994,7 +1013,14 @@ func jsonMarshalModel(ec *evalCtx, v Value) (*Term, *Term) {
 	} else {
 		data, err = App("json.Marshal", SStr, key), App("json.Marshal.err", SInt, key)
 	}
-	ec.st.Assume(Implies(Eq(err, Int(0)), ec.e().inL(data, "JSON_HTMLSAFE")))
+	if !escapeHTML.IsTrue() {
+		// a different encoding of the same value
+		data = App("json.rawhtml", SStr, data, escapeHTML)
+	}
+	ec.st.Assume(Implies(And(Eq(err, Int(0)), escapeHTML), ec.e().inL(data, "JSON_HTMLSAFE")))
+	// on an error the data returned is nil, which is in the language as well
+	ec.st.Assume(Implies(Not(Eq(err, Int(0))), Eq(data, Str(""))))
+	ec.st.Assume(Implies(escapeHTML, ec.e().inL(data, "JSON_HTMLSAFE")))
 	ec.noteFailure(Not(Eq(err, Int(0))))
 	ec.e().trusted["std:encoding/json.Marshal (output in JSON_HTMLSAFE: no '<', '>', '&')"] = true
 	return data, err
